@@ -9,12 +9,12 @@ func init() {
 		NotDecided: "equality of the stored row set with the input row set, key order, de-duplication correctness, export fidelity (value-dependent).",
 	}
 	props["C06"] = &propSpec{
-		Rules:      []string{"C06-a", "C06-b", "C06-c", "C06-d"},
+		Rules:      []string{"C06-a", "C06-b", "C06-c", "C06-d", "C17-f", "C16-g"},
 		Decides:    "Decides structural necessary conditions of 'objects round-trip and are stored under their hash': every content-addressed store in pkg/objects uses meow.Checksum of a parameter as key and stores that parameter, its s2 encoding, or (SaveCompressedBlock) a second parameter that every caller pairs with its decompression; raw Store.Set/Delete/Clear only inside pkg/objects; every uint16(len(.)) in the labelled-field and row encoders is dominated by a len <= 65535 test whose failing edge returns an error; the ordered label lists of each object's writer and reader agree. Does not decide decode(encode(x)) = x nor the varint header arithmetic.",
 		NotDecided: "decode(encode(x)) = x for all x; the packfile varint header arithmetic.",
 	}
 	props["C07"] = &propSpec{
-		Rules:      []string{"C07-a", "C07-b", "C07-c", "C07-d", "C07-f", "C06-a", "C13-a", "C13-h"},
+		Rules:      []string{"C07-a", "C07-b", "C07-c", "C07-d", "C07-f", "C06-a", "C13-a", "C13-h", "C17-f"},
 		Decides:    "Decides the receiver's validation/ordering mechanisms and the sender's queue order on every path: received blocks are stored only after ValidateBlockBytes succeeded on the same buffer and under the hash of the decompressed bytes; a commit is stored only after every parent was found; rebuilt block-index sums are compared with the table's recorded sums before the table index is written; the sender appends blocks before their table and the commit after its table. Does not decide byte identity of the two stores or packfile splitting. Also decided: the sender passes the enqueue-next-commit step before leaving WriteObjects; the receiver writes the table object last and never skips its index.",
 		NotDecided: "byte identity of source and destination stores; packfile splitting arithmetic.",
 	}
@@ -29,12 +29,12 @@ func init() {
 		NotDecided: "that IsAncestorOf answers correctly (C11); merge's fast-forward condition (control-dependent on SeekCommonAncestor); pull's new-branch detection; the remote side of push.",
 	}
 	props["C09"] = &propSpec{
-		Rules:      []string{"C09-a", "C09-b", "C09-c", "C09-e", "C09-f", "C09-g", "C10-c", "C08-c"},
+		Rules:      []string{"C09-a", "C09-b", "C09-c", "C09-e", "C09-f", "C09-g", "C10-c", "C08-c", "C17-f"},
 		Decides:    "Decides ordering/completion mechanisms: fetched refs are saved only on the success edge of the object fetch; the upload-pack session returns its terminal state only on Receive's done==true edge; a push session is created only after the shallow-commit check; refs are written only through pkg/ref's logging API. Does not decide completeness of the transferred history or idempotence. Also decided: tables are acknowledged only under TableExist; the receiver is given the freshly computed wants; every successful return of Fetch has saved the refs.",
 		NotDecided: "completeness of the transferred history, object identity on both sides, idempotence of a repeated fetch/push.",
 	}
 	props["C12"] = &propSpec{
-		Rules:      []string{"C12-a", "C12-b", "C12-c", "C12-d", "C12-e", "C12-f", "C13-i", "C17-e"},
+		Rules:      []string{"C12-a", "C12-b", "C12-c", "C12-d", "C12-e", "C12-f", "C13-i", "C17-e", "C17-f"},
 		Decides:    "Decides structural mechanisms of prune safety on every path: roots come from an unfiltered ref listing; no ref/object-store error is dropped while marking; every delete lies under a not-marked edge of a []bool mark (commits: come from a list filled only under such an edge); every sort.Search hit is bounds-checked before use and equality-checked before a mark is written; commits are deleted in the last step. Does not decide that the marked set equals the reachable set (graph-valued). Also decided: configuration fields with a defaulting getter (transaction TTL) are read only through it; prune deletes the table object before its index and profile.",
 		NotDecided: "that the marked set equals the reachable set for every repository (graph-valued).",
 	}
@@ -49,12 +49,12 @@ func init() {
 		NotDecided: "sequence semantics of the store against a map model; the file store (pkg/ref/fs is imported only by tests and is outside the production call graph).",
 	}
 	props["C16"] = &propSpec{
-		Rules:      []string{"C16-a", "C16-b", "C16-c", "C16-d", "C16-e", "C16-f"},
+		Rules:      []string{"C16-a", "C16-b", "C16-c", "C16-d", "C16-e", "C16-f", "C16-g"},
 		Decides:    "Decides that, for goroutines started in several instances on shared operands (go in a loop, or in a function called from a loop), every field/variable/map write reached from the shared operands is under a mutex reached from the same operands, inside sync.Once.Do, atomic or a channel operation; that SingleTracker's concurrently read counters are only accessed atomically; that the ingest pool's error channel is sized by the same value as its worker loop and a worker sends at most once; that no error is dropped in pipeline goroutines. Does not decide termination, deadlock freedom, equality with the sequential result or absence of every race. Also decided: workers read lock-guarded shared fields under the lock; no error send after closing the data channel; data channel fields are closed by their sender.",
 		NotDecided: "termination, deadlock freedom, equality with the sequential result, absence of every race (no may-happen-in-parallel analysis for main-vs-goroutine pairs).",
 	}
 	props["C18"] = &propSpec{
-		Rules:      []string{"C18-a"},
+		Rules:      []string{"C18-a", "C16-g"},
 		Decides:    "Decides a sufficient shape for chunk-independence of the byte stream decoders see: in pkg/encoding/..., pkg/objects, pkg/api/client and pkg/api/utils every direct Read call is inside a delegating Read method or inside a loop that accumulates the byte count and consumes n before any successful exit; all other reads go through io.ReadFull/ReadAtLeast/ReadAll/Copy. Its negation is a defect for iotest.OneByteReader/DataErrReader-like transports. Does not decide equality of decoded sequences under every partition. An accumulating read loop may not exit on a plain iteration counter.",
 		NotDecided: "equality of the decoded object sequences under every partition of the stream (behavioural); readers handed to third-party decoders (gzip, json).",
 	}
@@ -64,7 +64,7 @@ func init() {
 		NotDecided: "sortedness and de-duplication of the output for all row multisets and memory limits (value-dependent).",
 	}
 	props["C17"] = &propSpec{
-		Rules:      []string{"C17-a", "C17-b", "C17-c", "C17-d", "C17-e", "C07-b"},
+		Rules:      []string{"C17-a", "C17-b", "C17-c", "C17-d", "C17-e", "C17-f", "C07-b"},
 		Decides:    "Decides, over the functions reachable from the decoder entry points and ObjectReceiver.Receive, that no 32/64-bit count decoded from the stream sizes a make() without a sane bound on every path; that binary.BigEndian reads from caller-supplied slices in error-returning functions are behind a len() guard that relates the length to the read's offset and rejects with an error; that constant indices into decoded collections are behind a length test; that pointer results which can be nil together with an error are not dereferenced before the error test. Does not decide implicit index panics with non-constant indices, loop termination, or that nothing from a rejected packfile stays referenced. Also decided: Grow calls count as allocation sinks; a received commit is stored only after its parents were found.",
 		NotDecided: "implicit index panics with non-constant indices, loop termination, 'nothing from a rejected packfile is left referenced'.",
 	}
@@ -79,7 +79,7 @@ func init() {
 		NotDecided: "closedness, parent-first order, minimality, depth selection, polynomial termination — all statements about DAG values.",
 	}
 	props["C11"] = &propSpec{
-		Rules:      []string{"C11-a", "C11-b", "C11-c", "C11-d", "C11-e", "C17-e"},
+		Rules:      []string{"C11-a", "C11-b", "C11-c", "C11-d", "C11-e", "C17-e", "C16-g"},
 		Decides:    "Decides the 'whatever the commit timestamps say' clause for the ancestor test: in pkg/ref a value loaded from Commit.Time reaches a branch condition or return value only inside CommitsQueue.Less and the sort.Search predicate of Insert (frontier position); IsAncestorOf answers false only on the io.EOF edge of the pop and Pop yields io.EOF only on Len()==0; InsertParents offers every parent to the frontier. Does not decide SeekCommonAncestor's elimination logic or visit-exactly-once (graph-valued). Also decided: seen-set test and mark in CommitsQueue.Insert form one critical section; SeekCommonAncestor's 'not found' test uses a count accumulated within one round.",
 		NotDecided: "correctness of SeekCommonAncestor's lock-step elimination; visit-exactly-once (graph-valued).",
 	}
